@@ -287,8 +287,19 @@ if small:
         pcases.append(c)
         pmeta.append({"kind": "model-prefix", "desc": {"offset": off, "of": n, "impl": r[0] if r[0] == "ok" else r[2]}, "spec_ok": True, "spec_msg": "", "key": None})
     count("model-prefix", len(pcases))
+    # character level: what the writer emits is a plain-form tree (premises of reader_extracts_tree), and the reader's result is the tree's data
+    for xml_, _resp, _nb in sorted(emitted, key=lambda e: len(e[0]))[: (4 if TIER == "quick" else 20)]:
+        if len(xml_) > 12000:
+            break
+        ct = X.case_tree(xp, xml_)
+        if ct is None:
+            fail("plain-form", "an emitted SKR is outside the plain form (start tags on one line, double-quoted non-empty attributes, text without '<')", xml_)
+            continue
+        pcases.append(ct)
+        pmeta.append({"kind": "emitted-skr-is-plain-form-tree", "desc": {"xml_bytes": len(xml_)}, "spec_ok": True, "spec_msg": "", "key": None})
+        count("emitted-skr-is-plain-form-tree")
     okb, _ = vlib.make(["Checks/XmlCheck.vo"])
-    prunner = vlib.CaseRun("C11", "prefix", "From KV Require Import Base.Prelude Base.Exn Model.Data Model.Xml Checks.XmlCheck.", "case", "check", shard=12)
+    prunner = vlib.CaseRun("C11", "prefix", "From KV Require Import Base.Prelude Base.Exn Model.Data Model.Xml Model.XmlTree Checks.XmlCheck.", "case", "check", shard=12)
     presults = prunner.run(pcases) if okb else [-1] * len(pcases)
     props_ok = dict(props)
     props_ok["ok"] = True      # the proof-broken report was already issued by the first classify() call
